@@ -40,6 +40,9 @@ CHECKS = {
  'C20': dict(level='proof', ref='§6 C20', technique='Lean 4 theorems on the guard structure and an exhaustively tied validation decision table + fuzzing of the real main',
    text='Lean theorems: the except clause around the compute loop — its exception names are regenerated from the AST of main on every run — catches every exception class the numerical kernel can raise, and non-finite results become the diagnostic, so the kernel can only end in report or diagnostic (C20_kernel_guard); the validation decision table (49 numeric inputs x 5 value classes) has only admissible outcomes and lets only harmless value classes through (decide over the whole table); composition for one malformed input at a time (C20_trichotomy_partial). The table is compared exhaustively with the real main on every run; a fuzzing stream of documented options with arbitrary values searches for escaped exceptions, non-finite output, report-plus-diagnostic and empty output.',
    note=TB + 'partial: argument lists with several simultaneous malformed values, argparse itself and the set kernelRaises are not theorems (fuzzed); time-limited cases are not judged.'),
+ 'C13': dict(level='proof', ref='§6 C13', technique='Lean 4 / Mathlib theorems over R on the segmentation and transformation model + segment-table correspondence',
+   text='Lean theorems over R: equal segmentation gives n chained segments with end point i = p1 + (i+1)/n (p2-p1), the last one p2; arc points lie on the circle in the X-Z plane at uniform angular steps from ang1; helix points lie on the (radius-tapered) ellipse at their height; the rotation matrix of any three angles (with the zero-angle shortcut) preserves all dot products, hence lengths and angles; transformations are applied in non-decreasing key order and none is lost; scaling multiplies lengths by s; one- and two-sided tapers, whenever accepted, yield exactly n segments chaining from p1 to p2, and tapering the other end is the mirrored taper. Partial: taper positivity, growth <= 2.1, >= max(2.5 r, min), <= max are not theorems; they are evaluated on every generated taper of the implementation. The model (incl. the full taper algorithms) is tied to the code by comparing segment tables at rtol 1e-11 and accept/reject classes exactly.',
+   note=TB + 'numpy matmul / norm / float % are modelled; the 2.5 r factor is regenerated from taper.py.'),
 }
 NOT_YET = {}
 
